@@ -389,6 +389,9 @@ func scanIter(it *reftable.Iterator) ([]string, error) {
 			return out, err
 		}
 		if !ok {
+			if again, _ := it.NextRef(&r); again {
+				return out, fmt.Errorf("iterator yields a record (%s) after reporting the end of the iteration", hx.RefCanon(&r))
+			}
 			return out, nil
 		}
 		out = append(out, hx.RefCanon(&r))
